@@ -3,6 +3,8 @@
 # to the scratch worktree /tmp/wt/head (kept at /repo HEAD), runs the checks against it, reverts.
 seed=$1; shift
 wt=/tmp/wt/head
+# one user of the scratch worktree at a time
+exec 9>/tmp/wt/head.lock; flock 9
 git -C $wt checkout -q -- . ; git -C $wt clean -fdq
 git -C $wt checkout -q --detach $(git -C /repo rev-parse HEAD) 2>/dev/null
 p=/verif/seeded/$seed/patch.diff
